@@ -133,7 +133,7 @@ func TestC01(t *testing.T) {
 		runs = append(runs, p)
 	}
 	if sr, ok := loadSchedReplay(); ok {
-		runOne(&sr.Scenario, replayPick(sr.Choices))
+		runOne(&sr.Scenario, sr.picker())
 	} else {
 		for i := 0; i < pick(250, 2500); i++ {
 			sc := &srvScenario{Concurrency: 1 + rng.Intn(4)}
@@ -142,7 +142,7 @@ func TestC01(t *testing.T) {
 				sc.Ops = append(sc.Ops, envOp{Kind: "send", Arg: c01Record(rng, &uid)})
 			}
 			for j := 0; j < pick(6, 20); j++ {
-				runOne(sc, rngPick(rand.New(rand.NewSource(rng.Int63()))))
+				runOne(sc, seededPick(rng))
 			}
 		}
 		// push-enabled: handlers that await a callback while the client's own calls use ids that
@@ -164,7 +164,7 @@ func TestC01(t *testing.T) {
 			ops = append(ops, envOp{Kind: "reply", Arg: `{"jsonrpc":"2.0","id":1,"result":"late"}`})
 			sc.Ops = ops
 			for j := 0; j < pick(6, 20); j++ {
-				runOne(sc, rngPick(rand.New(rand.NewSource(rng.Int63()))))
+				runOne(sc, seededPick(rng))
 			}
 		}
 	}
